@@ -166,7 +166,7 @@ def _ws_worker(payload):
             if backend == "lmdb":
                 await C.lmdb_drain(st)
             sid_map = {"s%d" % i: "sub%d" % i for i in range(1, 20)}
-            sched = [("open", 0), ("open", 1), ("idle",)]
+            sched = [("open", 0), ("open", 1), ("idle",), ("msg", 0, {"m": "REQ", "sid": "s19", "fs": []}), ("msg", 1, {"m": "REQ", "sid": "s19", "fs": []}), ("idle",)]
             probes = iter(range(100))
             lines_meta = []
 
@@ -182,6 +182,7 @@ def _ws_worker(payload):
 
             evn = {"A": 0, "B": 0}
             sidn = [0]
+            sids_used = []
             for step in scn:
                 if step[0] == "auth":
                     sched += [auth_step(step[1], step[2]), ("idle",)]
@@ -195,6 +196,7 @@ def _ws_worker(payload):
                     else:
                         sidn[0] += 1
                         sched += [("msg", conn, {"m": "REQ", "sid": "s%d" % sidn[0], "fs": [{"kinds": [1]}]}), ("idle",)]
+                        sids_used.append("s%d" % sidn[0])
             try:
                 log, info, errs = await relaydrv.run_connections(st, uni, 2, sched, sid_map)
             finally:
@@ -202,7 +204,14 @@ def _ws_worker(payload):
         # interpret the log: per handled message, what was answered
         tr = []
         cur = {}
+        skip = 2         # the two filterless REQs that start the senders
         for ln in log:
+            if ln["a"] == "Send" and ln["f"]["t"] == "EVENT":
+                tr.append(("push", "c%d" % (ln["c"] + 1), ln["f"]["sid"]))
+            if ln["a"] == "Recv" and skip and ln["m"] == "REQ":
+                skip -= 1
+                cur.pop(ln["c"], None)
+                continue
             if ln["a"] == "Recv":
                 c = ln["c"]
                 cur[c] = {"m": ln["m"], "frames": []}
@@ -223,14 +232,18 @@ def _ws_worker(payload):
                         x["done"] = ("probe", conn, "query", bool(eose) and not notice, notice[0]["text"] if notice else "")
                     tr.append(x["done"])
                 cur = {}
-        return tr, errs
+        return tr, errs, sids_used
 
     async def main():
         for scn in scenarios:
-            obs, errs = await one(scn)
+            obs, errs, sids_used = await one(scn)
             lines = []
             k = 0
+            qn = 0
             for step in scn:
+                while k < len(obs) and obs[k][0] == "push":
+                    lines.append({"a": "Push", "c": obs[k][1], "sid": obs[k][2]})
+                    k += 1
                 if k >= len(obs):
                     break
                 o = obs[k]
@@ -239,8 +252,15 @@ def _ws_worker(payload):
                     lines.append({"a": "Auth", "c": step[1], "p": abstract(step[2]), "ok": bool(o[2]) if o[0] == "auth" else False,
                                   "_note": o[-1], "_conc": step[2]})
                 else:
-                    lines.append({"a": "Probe", "c": step[1], "action": step[2], "allowed": bool(o[3]) if o[0] == "probe" else False,
-                                  "_note": o[-1]})
+                    ln = {"a": "Probe", "c": step[1], "action": step[2], "allowed": bool(o[3]) if o[0] == "probe" else False, "_note": o[-1]}
+                    if step[2] == "query":
+                        ln["sid"] = sids_used[qn] if qn < len(sids_used) else "s?"
+                        qn += 1
+                    lines.append(ln)
+            while k < len(obs):
+                if obs[k][0] == "push":
+                    lines.append({"a": "Push", "c": obs[k][1], "sid": obs[k][2]})
+                k += 1
             out.append(lines)
         return out
 
